@@ -6,21 +6,21 @@
    action interleaves).  `last` remembers the completed action with the world it started from, so the laws of C23 are
    invariants (LawsHold), as is the design's InStep; Composite ties the phase-wise run to BoundBranch!Do. *)
 EXTENDS BoundBranch, TLC
-CONSTANTS MaxRev, Cs, Unbindable          \* Unbindable \subseteq Cs: the checkouts that are ever unbound / re-bound
+CONSTANTS MaxRev, Cs, Fs, Unbindable          \* Fs: {"F"} or {} (the third branch); Unbindable \subseteq Cs: the checkouts that are ever unbound / re-bound
 VARIABLES W, pc, last
 vars == <<W, pc, last>>
 Idle == [ph |-> "idle", c |-> "", before |-> <<>>]
 None == [a |-> Act("", "", "", ""), out |-> "", before |-> <<>>]
-Branches == Cs \cup {"M"}
+Branches == Cs \cup {"M"} \cup Fs
 W0 == [P |-> <<<<>>>>, tip |-> [b \in Branches |-> 1], bound |-> [c \in Cs |-> TRUE], basis |-> [c \in Cs |-> 1],
        pend |-> [c \in Cs |-> <<>>], lrevs |-> {}]
 Init == W = W0 /\ pc = Idle /\ last = None
 
-SimpleActs == {Act("commitM", "M", "", "")}
+SimpleActs == {Act("commitM", "M", "", "")} \cup {Act("commitF", f, "", "") : f \in Fs}
               \cup {Act(op, c, "", "") : op \in {"commitLocal", "update"}, c \in Cs}
               \cup {Act(op, c, "", "") : op \in {"commitUnbound", "bind", "unbind"}, c \in Unbindable}
               \cup {Act("pull", c, s, "") : c \in Cs, s \in Branches}
-Creates(a) == a.op \in {"commitM", "commitLocal", "commitUnbound"}
+Creates(a) == a.op \in {"commitM", "commitF", "commitLocal", "commitUnbound"}
 Simple(a) == /\ pc = Idle /\ a.c # a.src /\ Possible(W, a) /\ (Creates(a) => Len(W.P) < MaxRev)
              /\ LET r == Do(W, a) IN W' = r.W /\ last' = [a |-> a, out |-> r.out, before |-> W]
              /\ UNCHANGED pc
@@ -35,7 +35,10 @@ FinishA == /\ pc.ph = "localset" /\ W' = Finish(W, pc.c, Len(W.P)) /\ pc' = Idle
            /\ last' = [a |-> Act("commit", pc.c, "", ""), out |-> "ok", before |-> pc.before]
 FaultA == /\ pc.ph \in {"built", "masterset", "localset"} /\ pc' = Idle /\ UNCHANGED W
           /\ last' = [a |-> Act("commit", pc.c, "", pc.ph), out |-> "fault", before |-> pc.before]
-Next == (\E a \in SimpleActs : Simple(a)) \/ (\E c \in Cs : CheckBoundA(c)) \/ BuildA \/ SetMasterA \/ SetLocalA \/ FinishA \/ FaultA
+\* pull -r N from the third branch: N an ancestor of its tip that the checkout does not have yet
+StopActs == IF Fs = {} THEN {}
+            ELSE UNION {{PullTo(c, "F", n) : n \in Anc(W.P, W.tip["F"]) \ ({W.tip["F"]} \cup Anc(W.P, W.tip[c]))} : c \in Cs}
+Next == (\E a \in SimpleActs : Simple(a)) \/ (\E a \in StopActs : Simple(a)) \/ (\E c \in Cs : CheckBoundA(c)) \/ BuildA \/ SetMasterA \/ SetLocalA \/ FinishA \/ FaultA
 Spec == Init /\ [][Next]_vars
 
 Done == pc = Idle /\ last # None
@@ -48,5 +51,7 @@ WitnessMasterAhead == ~(Done /\ last.out = "fault" /\ W.tip["M"] # W.tip[last.a.
 WitnessRefusedDiverged == ~(Done /\ last.a.op = "commit" /\ last.out = "BoundBranchOutOfDate" /\ Diverged(W.P, W.tip["M"], W.tip[last.a.c]))
 WitnessUpdateKeepsLocalWork == ~(Done /\ last.a.op = "update" /\ W.pend[last.a.c] # <<>>)
 WitnessPullPartial == ~(Done /\ last.a.op = "pull" /\ last.out = "DivergedBranches" /\ W.tip["M"] # last.before.tip["M"])
+WitnessPullStop == ~(Done /\ last.a.op = "pull" /\ last.a.stop # 0 /\ last.out = "ok" /\ W.tip["M"] = last.a.stop
+                     /\ W.tip["M"] # last.before.tip["M"] /\ W.tip["F"] # last.a.stop)
 WitnessLocalAheadByLocalCommit == ~(\E c \in Cs : W.bound[c] /\ Ahead(W, c) # {})
 =============================================================================
